@@ -2267,6 +2267,123 @@ def unit_mirror_wiring(eng_unused, tier, prop, root=None):
     return r
 
 
+def unit_output_containers(eng, tier, prop):
+    """C17 / C12 / C02: the deep containers (Option, Result, Poll, Vec, 1..4-tuples): `output()` reproduces the stored shape
+    and yields None (=> the call panics) as soon as ANY leaf is exhausted — never a partial value; the single-use path
+    converts every leaf through into_return_once and the repeatable path through into_return."""
+    u = Unit(eng, "output-containers", ["<deep::{option,result,poll,vec,tup0..3}::AsReturn as GetOutput>::output", "IntoReturn / IntoReturnOnce for the deep and shallow containers"],
+             "every stored variant; each leaf's output symbolic in {Some, None}; Vec with 0..3 elements; tuples of arity 1..4")
+    rx = re.compile(r"as (output::)?GetOutput>::output$")
+
+    def h(call):
+        who = call.argv[0].cell.name if isinstance(call.argv[0], Ref) else "?"
+        b = eng.named_bool(f"leaf[{who}].available")
+        k = eng.decide(call.m, ("leaf", call.fr.bb, who), [b, z3.Not(b)])
+        call.m.event("leaf_output", who)
+        if k == 0:
+            o = Adt("LeafOutput", None)
+            o.tag = ("output_of", who)
+            return eng.mk_enum("Option", "Some", o)
+        return eng.mk_enum("Option", "None")
+    eng.handlers.insert(0, (rx, h))
+
+    def leaves_in(val, acc):
+        if isinstance(val, Adt):
+            if val.tag and val.tag[0] == "output_of":
+                acc.append(val.tag[1])
+            for k in sorted(val.fields, key=lambda kk: (str(kk[0]), kk[1])):
+                leaves_in(val.fields[k].val, acc)
+        elif isinstance(val, VecVal):
+            for c in val.items:
+                leaves_in(c.val, acc)
+        return acc
+
+    def check(fn, stored, leaf_names, label, shape_check=None):
+        paths = u.explore(fn, [Ref(Cell(stored, None, "stored"))], note=f"[{label}]")
+        avail = [eng.named_bool(f"leaf[{n}].available") for n in leaf_names]
+        for p in paths:
+            if p.outcome[0] != "return":
+                if p.outcome[0] == "panic":
+                    u.must_be_true(f"C17.output-never-panics[{label}]", False, {"site": p.outcome[1]})
+                continue
+            val = p.outcome[1]
+            some = val.discr == eng.variant_index("Option", "Some")
+            if some:
+                u.must_hold(f"C12.value-only-if-every-leaf-is-available[{label}]", p.pc, z3.And(avail) if avail else z3.BoolVal(True))
+                got = leaves_in(val.fields[("Some", 0)].val, [])
+                u.must_be_true(f"C17.same-leaves-same-order-same-count[{label}]", got == leaf_names, {"got": got, "want": leaf_names})
+                if shape_check:
+                    u.must_be_true(f"C17.same-variant[{label}]", shape_check(val.fields[("Some", 0)].val), {"val": repr(val)[:120]})
+            else:
+                u.must_hold(f"C12.none-only-if-some-leaf-is-exhausted[{label}]", p.pc, z3.Not(z3.And(avail)) if avail else z3.BoolVal(False))
+        u.must_be_unsat(f"C17.output-covers-all-leaf-states[{label}]", [z3.Not(z3.Or([z3.And(p.pc) if p.pc else z3.BoolVal(True) for p in paths if p.outcome[0] == "return"]))])
+        return paths
+    try:
+        # Option
+        f = eng.find_fn(r"^deep::option::<impl at src/output/deep/option\.rs:\d+:1: \d+:19>::output$")
+        s_some = Adt("AsReturn", eng.variant_index("AsReturn", "Some") if "AsReturn" in eng.enums and "Some" in eng.enums["AsReturn"] else 0)
+        # AsReturn enums of option/poll/result share a name: variant indices by declaration order of each file
+        def enum_of(file_rel, name="AsReturn"):
+            txt = re.sub(r"//[^\n]*", "", open(os.path.join(eng.src_root, file_rel)).read())
+            m = re.search(r"\benum\s+" + name + r"\b[^{]*\{([^}]*)\}", txt)
+            return [re.match(r"\s*(\w+)", x).group(1) for x in m.group(1).split(",") if x.strip()]
+        ov = enum_of("src/output/deep/option.rs")
+        for variant in ov:
+            st = Adt("AsReturn", ov.index(variant))
+            names = []
+            if variant == "Some":
+                st.fields[("Some", 0)] = Cell(lazy_adt("Leaf", "leaf0"), None, "leaf0")
+                names = ["leaf0"]
+            check(f, st, names, f"Option::{variant}", lambda v, variant=variant: v.discr == eng.variant_index("Option", variant))
+        # Poll
+        f = eng.find_fn(r"^poll::<impl at src/output/deep/poll\.rs:\d+:1: \d+:19>::output$")
+        pv = enum_of("src/output/deep/poll.rs")
+        for variant in pv:
+            st = Adt("AsReturn", pv.index(variant))
+            names = []
+            if variant == "Ready":
+                st.fields[("Ready", 0)] = Cell(lazy_adt("Leaf", "leaf0"), None, "leaf0")
+                names = ["leaf0"]
+            check(f, st, names, f"Poll::{variant}", lambda v, variant=variant: v.discr == eng.variant_index("Poll", variant))
+        # Result
+        f = eng.find_fn(r"^deep::result::<impl at src/output/deep/result\.rs:\d+:1: \d+:19>::output$")
+        rv = enum_of("src/output/deep/result.rs")
+        for variant in rv:
+            st = Adt("AsReturn", rv.index(variant))
+            st.fields[(variant, 0)] = Cell(lazy_adt("Leaf", "leaf0"), None, "leaf0")
+            check(f, st, ["leaf0"], f"Result::{variant}", lambda v, variant=variant: v.discr == eng.variant_index("Result", variant))
+        # Vec with n elements
+        f = eng.find_fn(r"^deep::vec::<impl at src/output/deep/vec\.rs:\d+:1: \d+:19>::output$")
+        for n in range(0, 4):
+            items = [Cell(lazy_adt("Leaf", f"elem{i}"), None, f"elem{i}") for i in range(n)]
+            st = Adt("AsReturn", None)
+            st.fields[(None, 0)] = Cell(VecVal(None, items, "Vec"), None, "elems")
+            check(f, st, [f"elem{i}" for i in range(n)], f"Vec[{n}]")
+        # tuples
+        for arity in range(1, 5):
+            cands = [g for g in eng.fns if g.short == "output" and g.module.startswith(f"tup{arity - 1}::")]
+            u.must_be_true(f"C17.tuple-impl-found[{arity}]", len(cands) == 1)
+            if len(cands) != 1:
+                continue
+            st = Adt("AsReturn", None)
+            for i in range(arity):
+                st.fields[(None, i)] = Cell(lazy_adt("Leaf", f"t{i}"), None, f"t{i}")
+            check(cands[0], st, [f"t{i}" for i in range(arity)], f"tuple{arity}")
+        # conversions: single-use path uses into_return_once for every leaf, repeatable path uses into_return
+        conv = [g for g in eng.fns if g.short in ("into_return", "into_return_once") and re.match(r"(deep|poll|tup\d|shallow)", g.module)]
+        n_checked = 0
+        for g in conv:
+            bodies = [g] + [c for c in eng.fns if c.raw_name.startswith(g.raw_name + "::{closure")]
+            leafs = [cal for b in bodies for cal, _ in all_callees(eng, b) if re.search(r"IntoReturn(Once)?<.*>>::into_return(_once)?$", cal)]
+            for cal in leafs:
+                n_checked += 1
+                u.must_be_true("C12.leaf-conversion-matches-the-path", cal.endswith("::" + g.short), {"container": g.raw_name[:70], "leaf_conversion": cal[-60:]})
+        u.witness(f"{n_checked} leaf conversions checked", [z3.BoolVal(n_checked >= 12)])
+    finally:
+        eng.handlers.remove((rx, h))
+    return u.result()
+
+
 def unit_todo(eng, tier, prop):
     u = Unit(eng, "todo", [], "")
     u.errors.append("unit not implemented yet")
@@ -2274,6 +2391,7 @@ def unit_todo(eng, tier, prop):
 
 
 UNITS = {
+    "output_containers": unit_output_containers,
     "mirror_wiring": unit_mirror_wiring,
     "delegators": unit_delegators,
     "schedules": unit_schedules,
